@@ -101,6 +101,9 @@ func (d *Driver) ExecContext(_ context.Context, q string, _ ...any) (sql.Result,
 	return nil, nil
 }
 
+// SetDirty makes CheckClean report a non-clean database.
+func (d *Driver) SetDirty(b bool) { d.dirty = b }
+
 func (d *Driver) CheckClean(context.Context, *migrate.TableIdent) error {
 	if d.dirty {
 		return &migrate.NotCleanError{Reason: "found table"}
@@ -238,7 +241,8 @@ type Result struct {
 	Table   string
 }
 
-func orderOf(s string) migrate.ExecOrder {
+// OrderOf maps the flag value to the executor option.
+func OrderOf(s string) migrate.ExecOrder {
 	switch s {
 	case "linear-skip":
 		return migrate.ExecOrderLinearSkip
@@ -288,7 +292,7 @@ func (r Run) Execute(dir migrate.Dir, st *Store) (res Result) {
 	st.fs = fs
 	defer func() { st.fs = nil }()
 	drv := &Driver{fs: fs, dirty: r.Dirty}
-	opts := []migrate.ExecutorOption{migrate.WithExecOrder(orderOf(r.Order)), migrate.WithAllowDirty(r.AllowDirty)}
+	opts := []migrate.ExecutorOption{migrate.WithExecOrder(OrderOf(r.Order)), migrate.WithAllowDirty(r.AllowDirty)}
 	if r.Baseline != "" {
 		opts = append(opts, migrate.WithBaselineVersion(r.Baseline))
 	}
